@@ -233,3 +233,6 @@ pub use util::he_standard_params;
 pub use serialize::{Serializable, SerializableWithHeContext, PolynomialSerializer};
 pub use shortcut::*;
 pub mod perf_utils;
+
+#[cfg(feature = "verif")]
+pub mod verif_hooks;
